@@ -58,6 +58,10 @@ func serializeIdentifier(value string) string {
 	if value == "-" {
 		return `\-`
 	}
+	if value == "--" {
+		// "--" directly followed by ">" would be read back as the CDC token
+		return `-\-`
+	}
 
 	if len(value) >= 2 && value[:2] == "--" {
 		return "--" + serializeName(value[2:])
